@@ -120,6 +120,7 @@ Inductive meth :=
 | M_uniqueString | M_uniqueInt | M_compact | M_cross | M_merge | M_order | M_orderRev | M_orderLess
 | M_reverse | M_append | M_iir | M_iirCombine | M_visit | M_fsm | M_top | M_skip | M_number | M_present
 | M_set | M_size | M_first | M_single | M_last | M_eval | M_movingWindow | M_movingWindowRemove | M_multiUse
+| M_replaceList
 | M_len | M_string | M_trim | M_toLower | M_toUpper | M_contains | M_indexOf | M_split | M_cut
 | M_replace | M_toInt | M_toFloat
 | M_get | M_put | M_isAvail | M_list
@@ -140,7 +141,7 @@ Definition meth_name (m : meth) : name :=
   | M_iir => nm_iir | M_iirCombine => nm_iirCombine | M_visit => nm_visit | M_fsm => nm_fsm | M_top => nm_top
   | M_skip => nm_skip | M_number => nm_number | M_present => nm_present | M_set => nm_set | M_size => nm_size
   | M_first => nm_first | M_single => nm_single | M_last => nm_last | M_eval => nm_eval
-  | M_movingWindow => nm_movingWindow | M_movingWindowRemove => nm_movingWindowRemove | M_multiUse => nm_multiUse
+  | M_movingWindow => nm_movingWindow | M_movingWindowRemove => nm_movingWindowRemove | M_multiUse => nm_multiUse | M_replaceList => nm_replaceList
   | M_len => nm_len | M_string => nm_string | M_trim => nm_trim | M_toLower => nm_toLower
   | M_toUpper => nm_toUpper | M_contains => nm_contains | M_indexOf => nm_indexOf | M_split => nm_split
   | M_cut => nm_cut | M_replace => nm_replace | M_toInt => nm_toInt | M_toFloat => nm_toFloat
@@ -159,7 +160,7 @@ Definition list_meths : list (meth * Z) :=
    (M_compact, 1); (M_cross, 2); (M_merge, 2); (M_order, 1); (M_orderRev, 1); (M_orderLess, 1);
    (M_reverse, 0); (M_append, 1); (M_iir, 2); (M_iirCombine, 2); (M_visit, 2); (M_fsm, 1); (M_top, 1);
    (M_skip, 1); (M_number, 1); (M_present, 1); (M_set, 2); (M_size, 0); (M_first, 0); (M_single, 0);
-   (M_last, 0); (M_eval, 0); (M_movingWindow, 1); (M_movingWindowRemove, 1); (M_multiUse, 1)].
+   (M_last, 0); (M_eval, 0); (M_movingWindow, 1); (M_movingWindowRemove, 1); (M_multiUse, 1); (M_replaceList, 1)].
 
 Definition string_meths : list (meth * Z) :=
   [(M_len, 0); (M_string, 0); (M_trim, 0); (M_toLower, 0); (M_toUpper, 0); (M_contains, 1);
@@ -177,7 +178,7 @@ Definition model_table : list (N * list (meth * Z)) :=
 
 (* built-ins that exist but have no model (the pipeline answers Unsup: case skipped) *)
 Definition unmodelled_table : list (N * list name) :=
-  [(5%N, [nm_replaceList; nm_iirApply; nm_string; nm_createInterpolation; nm_linearReg;
+  [(5%N, [nm_iirApply; nm_string; nm_createInterpolation; nm_linearReg;
           nm_binning; nm_binning2d; nm_collectBinning]);
    (3%N, [nm_behind; nm_behindList]);
    (6%N, [nm_replaceMap; nm_string]);
@@ -290,6 +291,11 @@ Definition run_list (s : strm) (m : meth) (args : list arg) : res pv :=
       | _ => bind (collect s) (fun l => bind (multi_apply l fs) (fun es => Ok (PV (VMap es))))
       end
   | M_multiUse, [AV _] | M_multiUse, [AF _ _] => Err None     (* not a map of functions *)
+  (* List.ReplaceList: the function is applied to the list itself and its answer is the result; a receiver
+     that fails while it is evaluated is outside the model (whether the failure shows depends on what the
+     function demands) *)
+  | M_replaceList, [a] =>
+      bind (arg_f1 a) (fun f => match collect s with Ok l => okV (f (VList l)) | Err _ => Unsup | r => okL r end)
   | _, _ => Unsup
   end.
 
@@ -597,6 +603,7 @@ Definition spec_list (l : list value) (m : meth) (args : list arg) : res value :
   | M_compact, [a] => bind (arg_f2 a) (fun f => lz (d_compact f l))
   | M_cross, [o; a] => bind (arg_f2 a) (fun f => sp_list o (fun l2 => lz (d_cross f l l2)))
   | M_merge, [o; a] => bind (arg_f2 a) (fun f => sp_list o (fun l2 => lz (d_merge f l l2)))
+  | M_replaceList, [a] => bind (arg_f1 a) (fun f => f (VList l))
   | M_order, [a] => bind (arg_f1 a) (fun f => sort_spec (lt_key f false) l)
   | M_orderRev, [a] => bind (arg_f1 a) (fun f => sort_spec (lt_key f true) l)
   | M_orderLess, [a] => bind (arg_f2 a) (fun f => sort_spec (fun x y => d_bool (f x y)) l)
